@@ -150,13 +150,14 @@ func (e *Exec) intrinsic(s *State, fr *Frame, fn *ssa.Function, args []Value, in
 		return ret(s)
 	case "HavocLoop":
 		if e.havoc == nil {
-			e.havoc = map[string]int{}
+			e.havoc = map[string]string{}
 			e.havocUsed = map[string]bool{}
+			e.havocSeen = map[string]bool{}
 		}
 		name := e.strArg(args[0], "vrt.HavocLoop")
-		on := term(args[1])
-		if on.isTrue() {
-			e.havoc[name] = 0
+		vn := e.strArg(args[1], "vrt.HavocLoop")
+		if vn != "" {
+			e.havoc[name] = vn
 		} else {
 			delete(e.havoc, name)
 		}
